@@ -218,11 +218,25 @@ fn main() {
                 rep.count("scene_calls_compared_with_simple_tracker");
                 if !same_grouping(brecs, &srecs, &map, &rev) {
                     let js = judge_call(&scfg, s, sepoch, dets, &srecs, &spre);
-                    let jb = if !consumer_thread { Some(judge_call(&cfg, s, pre_epochs[bi][&s] + 1, dets, brecs, &pres[bi])) } else { None };
+                    // Same-thread mode: the batch outcome is judged against the batch tracker's own quiescent pre-batch
+                    // snapshot. Consumer-thread mode has no quiescent snapshot of the batch tracker, but up to this call
+                    // the two runs agreed (same grouping, same numbers), so the simple tracker's pre-call state IS the
+                    // state a correct batch tracker acts on: the batch records, with their ids translated through the
+                    // bijection built so far, are judged against it.
+                    let jb = if !consumer_thread {
+                        judge_call(&cfg, s, pre_epochs[bi][&s] + 1, dets, brecs, &pres[bi])
+                    } else {
+                        let bt: Vec<Rec> = brecs.iter().map(|r| {
+                            let mut t = r.clone();
+                            t.id = map.get(&r.id).cloned().unwrap_or((1u64 << 62) | r.id);
+                            t
+                        }).collect();
+                        rep.count("consumer_mode_divergences_judged_against_simple_tracker_state");
+                        judge_call(&scfg, s, sepoch, dets, &bt, &spre)
+                    };
                     match (js, jb) {
                         (Judgement::Invalid(sig, d), _) => rep.violation(&format!("C06/{:?}/refinement/simple-tracker-outcome-invalid/{}", kind, sig), idx, json!({"ctx": ctx, "scene": s, "batch": bi, "detail": d})),
-                        (_, Some(Judgement::Invalid(sig, d))) => rep.violation(&format!("C06/{:?}/refinement/batch-outcome-invalid/{}", kind, sig), idx, json!({"ctx": ctx, "scene": s, "batch": bi, "detail": d})),
-                        (_, None) => rep.count("grouping_divergences_in_consumer_mode_unexplained"),
+                        (_, Judgement::Invalid(sig, d)) => rep.violation(&format!("C06/{:?}/refinement/batch-outcome-invalid/{}", kind, sig), idx, json!({"ctx": ctx, "scene": s, "batch": bi, "detail": d})),
                         _ => rep.count("tie_divergences"),
                     }
                     break;
